@@ -95,7 +95,8 @@ def r2(ctx, cfg, R="C06.R2"):
             continue
         cf = cfg_of(f)
         ins = q.calls(f, "std::collections::BTreeMap::insert")
-        app = q.calls(f, T + "RepLog::append")
+        # (RepLog::append is always spliced - vlib/inline.py ALWAYS_INLINE: the log entry is `rep_log.ops_log.push(op)`)
+        app = [(b0, t0) for b0, t0 in q.calls(f, "std::vec::Vec::push") if _self_field_path(P.call_args(f, t0, b0)[0], ("rep_log", "ops_log"))]
         ctx.ob(R, ST + name, "one-insert-one-append", len(ins) == 1 and len(app) == 1,
                "expected one local_state.insert and one rep_log.append, found %d/%d" % (len(ins), len(app)), fn=f, sample="1/1")
         if len(ins) != 1 or len(app) != 1:
@@ -113,7 +114,7 @@ def r2(ctx, cfg, R="C06.R2"):
                "local_state.insert(%s, %s)" % (fmt(ia[1]), fmt(ia[2])[:100]), fn=f, line=it["line"],
                sample="local_state.insert(key, Op::%s{..}.to_delta())" % variant)
         op = peel(aa[1])
-        ok = _self_field(aa[0], "rep_log") and _op_agg(op, variant)
+        ok = _op_agg(op, variant)
         if ok:
             dd = dict(op[2])
             ok = all(is_param(dd[fl], fl) for fl in fields)
@@ -123,16 +124,16 @@ def r2(ctx, cfg, R="C06.R2"):
         ok = all(cf.must_pass(ib, r) and cf.must_pass(ab, r) for r in rets)
         ctx.ob(R, ST + name, "both-on-every-path", ok, "insert/append are not on every path of %s" % name, fn=f,
                sample="insert and append dominate return")
-    # RepLog::append pushes the op
-    f = ctx.need_fn(R, T + "RepLog::append")
-    if f is not None:
-        ps = q.calls(f, "std::vec::Vec::push")
-        ok = len(ps) == 1
-        if ok:
-            a = P.call_args(f, ps[0][1], ps[0][0])
-            ok = _self_field(a[0], "ops_log") and is_param(a[1], "op")
-        ctx.ob(R, T + "RepLog::append", "append-pushes-op", ok, "append must push its argument to ops_log", fn=f,
-               sample="ops_log.push(op)")
+
+
+def _self_field_path(o, path):
+    """o is self.<path[0]>.<path[1]>.. (through value-preserving wrappers and recorded &mut hand-outs)"""
+    o = peel(o)
+    for name in reversed(path):
+        if o[0] != "field" or o[2] != name:
+            return False
+        o = peel(o[1])
+    return is_param(o, "self")
 
 
 def _ret_event(P, fn, site, item):
@@ -361,15 +362,22 @@ def r5(ctx, cfg, R="C06.R5"):
     from vlib.paths import decision_table
 
     def classify(fn, bid, t):
-        if t.get("adt") != "std::ops::Bound":
-            return None
+        # the two tracked facts: is there a lower / an upper key.  Asked either of the Bound handed to BTreeMap::range
+        # (Included / Excluded vs Unbounded) or of the caller's Option directly (Some vs None)
         o = P.place(fn, t["discr_of"], (bid, "t"))
-        has_s = contains(o, lambda x: x[0] == "param" and x[2] == "start")
-        has_e = contains(o, lambda x: x[0] == "param" and x[2] == "end")
-        if has_s and not has_e:
-            return "lower"
-        if has_e and not has_s:
-            return "upper"
+        if t.get("adt") == "std::ops::Bound":
+            has_s = contains(o, lambda x: x[0] == "param" and x[2] == "start")
+            has_e = contains(o, lambda x: x[0] == "param" and x[2] == "end")
+            if has_s and not has_e:
+                return "lower"
+            if has_e and not has_s:
+                return "upper"
+            return None
+        if t.get("adt") == "std::option::Option":
+            if is_param(o, "start"):
+                return ("lower", {"Some": "Included", "None": "Unbounded"})
+            if is_param(o, "end"):
+                return ("upper", {"Some": "Excluded", "None": "Unbounded"})
         return None
 
     def watch(fn, site, item):
